@@ -33,7 +33,9 @@ SPECIAL_PATTERNS = ["v[[MAJOR.]MINOR.]PATCH", "MAJOR.MINOR[[.PATCH]-TAG]", "vYYY
                     # a week part alone in an optional group (week 0 is a value, not a zero to be omitted); literal text closing an optional group
                     "vYYYY[.WW]", "YYYY[.UU[.INC0]]", "YYYY[wWW][-TAG]", "MAJOR.MINOR.PATCH[-TAG[.NUM]-x]", "vMAJOR.MINOR[.PATCH[-TAG]+local]",
                     # INC1 restarts at 1, which is not a zero: an optional group holding it is always written
-                    "YYYY.MM[.INC1]", "MAJOR.MINOR[.INC1]", "vMAJOR[.MINOR[.INC1]]"]
+                    "YYYY.MM[.INC1]", "MAJOR.MINOR[.INC1]", "vMAJOR[.MINOR[.INC1]]",
+                    # a part next to a longer part whose name contains it, in one bracket-free stretch
+                    "vYYYY.MM-YY.BUILD", "GGGGwVV/GG.PATCH", "MAJOR.MINOR.PATCH[-TAG+PYTAGNUM]"]
 
 
 def gen_pattern(r, allow_bad_week=False):
@@ -41,7 +43,8 @@ def gen_pattern(r, allow_bad_week=False):
     for which round-trip is claimed (parts separated so that tokenisation is unambiguous)."""
     if r.random() < 0.08:
         pat = r.choice(SPECIAL_PATTERNS)
-        return pat, dict(wf=True, bridge=False, cal="y" if "YYYY" in pat else None, has_num=True, tag="", prefix="", suffix="", sep=".")
+        two_digit = pat in ("vYYYY.MM-YY.BUILD", "GGGGwVV/GG.PATCH")     # two-digit year parts: claimed for 2001..2099
+        return pat, dict(wf=True, bridge=False, cal=("y2" if two_digit else "y") if ("YYYY" in pat or "GGGG" in pat) else None, has_num=True, tag="", prefix="", suffix="", sep=".")
     parts = []
     wf = True
     has_cal = r.random() < 0.6
